@@ -443,8 +443,12 @@ func s10() scenario {
 		var _ *ecdsa.PublicKey = pub
 		in := &inst{outs: make([]string, 3)}
 		in.threads = []func(){
-			func() { in.outs[0] = fmt.Sprint(sm2.VerifyASN1(pub, digest1, s10Sig), sm2.VerifyASN1(pub, digest2, s10Sig)) },
-			func() { in.outs[1] = hx(sm2.Encrypt(&engine.DetReader{Lane: 71}, pub, []byte("to the shared public key"), nil)) },
+			func() {
+				in.outs[0] = fmt.Sprint(sm2.VerifyASN1(pub, digest1, s10Sig), sm2.VerifyASN1(pub, digest2, s10Sig))
+			},
+			func() {
+				in.outs[1] = hx(sm2.Encrypt(&engine.DetReader{Lane: 71}, pub, []byte("to the shared public key"), nil))
+			},
 			func() {
 				za, err := sm2.CalculateZA(pub, nil)
 				e, err2 := sm2.PublicKeyToECDH(pub)
